@@ -7,9 +7,13 @@
 //
 //	req = <mode><reqmod><rt><resmod><close>
 //	  mode   g plain request | b CONNECT on a proxy without MITM (blind tunnel) | m CONNECT on a MITM proxy
-//	  reqmod P pass | E return error | S skip round trip | H hijack the session
-//	  rt     O upstream answers (203) / dial succeeds | F round trip / dial fails
-//	  resmod P pass | E return error | H hijack the session
+//	  reqmod independent flags of ONE call (it always mutates the request):
+//	         P none | E return error | S skip round trip | H hijack the session
+//	         A hijack+error | B skip+error | C skip+hijack | D skip+hijack+error
+//	  rt     O upstream answers 203 with res.Request = the request it was given / dial succeeds
+//	         C answers with res.Request = a clone of it | N answers with res.Request = nil
+//	         F round trip / dial fails
+//	  resmod P none | E return error | H hijack the session | A hijack+error
 //	  close  k keep-alive | c request carries "Connection: close"
 //
 // OUT tokens (request r = position of the request token in the case, all
@@ -51,15 +55,26 @@ import (
 )
 
 type reqTok struct {
-	mode, q, rt, s, cl byte
+	mode       byte
+	qh, qe, qs bool
+	rt         byte
+	sh, se     bool
+	cl         byte
 }
 
 func parseTok(t string) (reqTok, bool) {
-	if len(t) != 5 || !strings.ContainsRune("gbm", rune(t[0])) || !strings.ContainsRune("PESH", rune(t[1])) ||
-		!strings.ContainsRune("OF", rune(t[2])) || !strings.ContainsRune("PEH", rune(t[3])) || !strings.ContainsRune("kc", rune(t[4])) {
+	if len(t) != 5 || !strings.ContainsRune("gbm", rune(t[0])) || !strings.ContainsRune("PESHABCD", rune(t[1])) ||
+		!strings.ContainsRune("OFCN", rune(t[2])) || !strings.ContainsRune("PEHA", rune(t[3])) || !strings.ContainsRune("kc", rune(t[4])) {
 		return reqTok{}, false
 	}
-	return reqTok{t[0], t[1], t[2], t[3], t[4]}, true
+	q, s := t[1], t[3]
+	return reqTok{
+		mode: t[0],
+		qh:   strings.ContainsRune("HACD", rune(q)), qe: strings.ContainsRune("EABD", rune(q)), qs: strings.ContainsRune("SBCD", rune(q)),
+		rt: t[2],
+		sh: s == 'H' || s == 'A', se: s == 'E' || s == 'A',
+		cl: t[4],
+	}, true
 }
 
 type env struct {
@@ -150,15 +165,15 @@ func (e *env) ModifyRequest(req *http.Request) (err error) {
 	if !ok {
 		return nil
 	}
-	switch beh.q {
-	case 'E':
-		return errors.New("reqmod-error")
-	case 'S':
-		if ctx != nil {
-			ctx.SkipRoundTrip()
-		}
-	case 'H':
+	// one call may do any combination of: skip, hijack, fail
+	if beh.qs && ctx != nil {
+		ctx.SkipRoundTrip()
+	}
+	if beh.qh {
 		e.hijack(ctx, r)
+	}
+	if beh.qe {
+		return errors.New("reqmod-error")
 	}
 	return nil
 }
@@ -194,11 +209,11 @@ func (e *env) ModifyResponse(res *http.Response) (err error) {
 	if !ok {
 		return nil
 	}
-	switch beh.s {
-	case 'E':
-		return errors.New("resmod-error")
-	case 'H':
+	if beh.sh {
 		e.hijack(ctx, r)
+	}
+	if beh.se {
+		return errors.New("resmod-error")
 	}
 	return nil
 }
@@ -217,9 +232,18 @@ func (e *env) RoundTrip(req *http.Request) (*http.Response, error) {
 	if beh.rt == 'F' {
 		return nil, errors.New("upstream-failure")
 	}
+	// what a wrapping RoundTripper may legitimately leave in res.Request: the
+	// request it was given, the copy it forwarded, or nothing
+	rr := req
+	switch beh.rt {
+	case 'C':
+		rr = req.Clone(req.Context())
+	case 'N':
+		rr = nil
+	}
 	return &http.Response{
 		StatusCode: 203, Status: "203 Non-Authoritative Information", Proto: "HTTP/1.1", ProtoMajor: 1, ProtoMinor: 1,
-		Header: http.Header{"Content-Type": {"text/plain"}}, Body: io.NopCloser(strings.NewReader("ok")), ContentLength: 2, Request: req,
+		Header: http.Header{"Content-Type": {"text/plain"}}, Body: io.NopCloser(strings.NewReader("ok")), ContentLength: 2, Request: rr,
 	}, nil
 }
 
@@ -507,18 +531,24 @@ func runCase(in []string) (out []string) {
 // ---------------------------------------------------------------- generation
 
 var (
-	qs  = "PESH"
-	rts = "OF"
-	ss  = "PEH"
-	cls = "kc"
+	qAll  = "PESHABCD"
+	rtAll = "OFCN"
+	sAll  = "PEHA"
+	clAll = "kc"
 )
 
+// allToks enumerates every combination of behaviours for one request of the
+// given mode.  The round-tripper variants C and N only matter for plain
+// requests (CONNECT never reaches the round tripper).
 func allToks(mode byte, withClose bool) []string {
 	var a []string
-	for _, q := range qs {
-		for _, rt := range rts {
-			for _, s := range ss {
-				for _, cl := range cls {
+	for _, q := range qAll {
+		for _, rt := range rtAll {
+			if mode != 'g' && (rt == 'C' || rt == 'N') {
+				continue
+			}
+			for _, s := range sAll {
+				for _, cl := range clAll {
 					if cl == 'c' && !withClose {
 						continue
 					}
@@ -531,9 +561,12 @@ func allToks(mode byte, withClose bool) []string {
 }
 
 func randTok(r *hx.RNG, mode byte) string {
-	q := "PPPESH"[r.Intn(6)]
-	rt := "OOOF"[r.Intn(4)]
-	s := "PPPEH"[r.Intn(5)]
+	q := "PPPPESHABCD"[r.Intn(11)]
+	rt := "OOOFCN"[r.Intn(6)]
+	if mode != 'g' && rt != 'F' {
+		rt = 'O'
+	}
+	s := "PPPPEHA"[r.Intn(7)]
 	cl := byte('k')
 	if mode == 'g' && r.Chance(1, 8) {
 		cl = 'c'
@@ -598,7 +631,8 @@ func main() {
 		return
 	}
 
-	// 1. every single-request behaviour in every mode (all 3 x 4 x 2 x 3 x 2)
+	// 1. every combination of behaviour flags for a single request in every mode
+	//    (plain: 8 x 4 x 4 x 2; CONNECT blind / MITM: 8 x 2 x 4 x 2)
 	for _, m := range []byte("gbm") {
 		for _, t := range allToks(m, true) {
 			emit("one", []string{"K", t})
@@ -610,6 +644,10 @@ func main() {
 		for _, t := range allToks(m, m == 'g') {
 			emit("then", []string{"K", t, "gPOPk", "gEOEk", "K", "gPOPk"})
 		}
+	}
+	//    every CONNECT behaviour on a MITM proxy followed by inner requests inside TLS
+	for _, t := range allToks('m', false) {
+		emit("mthen", []string{"K", t, "gEOAk", "gPCPk"})
 	}
 	// 3. inside a MITM tunnel: CONNECT, then every behaviour as first inner request, then one more
 	for _, t := range allToks('g', true) {
